@@ -771,7 +771,11 @@ func (g *sgen) failStmt(kind, name string) {
 			g.line("local s = \"abc\" .. nil")
 		}
 	case "fail-binding":
-		switch g.pick(6) {
+		sel := g.pick(6)
+		if ti.Kind == "index" && g.pick(2) == 0 {
+			sel = 4
+		}
+		switch sel {
 		case 0:
 			g.used["manifest.get"]++
 			g.line("local m = manifest.get(%s)", q(l.ref("no-such-tag")))
@@ -786,8 +790,14 @@ func (g *sgen) failStmt(kind, name string) {
 			g.line("local x = blob.get(%s, %s)", q(l.base()), q("sha256:"+strings.Repeat("1", 64)))
 		case 4:
 			g.used["image.config"]++
-			g.used["manifest.head"]++
-			g.line("local x = image.config(manifest.head(%s))", q(l.ref(ti.Tag)))
+			if ti.Kind == "index" {
+				// an index has no config: the binding fails after it has started its registry work
+				g.used["manifest.getList"]++
+				g.line("local x = image.config(manifest.getList(%s))", q(l.ref(ti.Tag)))
+			} else {
+				g.used["manifest.head"]++
+				g.line("local x = image.config(manifest.head(%s))", q(l.ref(ti.Tag)))
+			}
 		default:
 			g.used["repo.ls"]++
 			g.line("local x = repo.ls()")
